@@ -332,6 +332,7 @@ Definition manager_decide (cfg : config) (env : mgr_env) (m : mgr_mem) (cs csd :
   | MrMany => Do 408 (FileWrite f_emerge) (fun _ => Ret (GNext NxManager, m))
   | MrNone | MrErr => Ret (GNext NxManager, m)
   | MrOk master =>
+  if negb (mem_host master (map fst (all_hosts m))) then Ret (GNext NxManager, m) else   (* recorded master not registered: skip *)
   Do 414 (DcsGet PActiveNodes) (fun ra =>
   match match ra with
         | RVal (VHosts l) => Some l
